@@ -443,7 +443,28 @@ func (s *storage) createArchetype(node *node) *archetype {
 
 // createTable creates a new table in the given archetype, for the given relations.
 // May recycle a free table.
+//
+// Checks that relation components are relations and that relation targets are alive.
 func (s *storage) createTable(archetype *archetype, relations []relationID) *table {
+	if uint8(len(relations)) < archetype.numRelations {
+		panic("relation targets must be fully specified")
+	}
+	for i := range relations {
+		rel := &relations[i]
+		s.checkRelationComponent(rel.component)
+		s.checkRelationTarget(rel.target)
+	}
+	return s.createTableUnchecked(archetype, relations)
+}
+
+// createTableUnchecked creates a new table in the given archetype, for the given relations.
+// May recycle a free table.
+//
+// Does not check the validity of relation components and targets.
+// Used directly when cleaning up after removed relation targets,
+// where the remaining targets of a table may be entities removed in the same batch
+// that are still to be cleaned up.
+func (s *storage) createTableUnchecked(archetype *archetype, relations []relationID) *table {
 	targets := make([]Entity, len(archetype.components))
 
 	if uint8(len(relations)) < archetype.numRelations {
@@ -452,11 +473,6 @@ func (s *storage) createTable(archetype *archetype, relations []relationID) *tab
 	for _, rel := range relations {
 		idx := archetype.componentsMap[rel.component.id]
 		targets[idx] = rel.target
-	}
-	for i := range relations {
-		rel := &relations[i]
-		s.checkRelationComponent(rel.component)
-		s.checkRelationTarget(rel.target)
 	}
 
 	var newTableID tableID
@@ -521,7 +537,7 @@ func (s *storage) cleanupArchetypes(target Entity) {
 					// Copy the slice, as it comes from the slice pool
 					tableRelations := make([]relationID, len(allRelations))
 					copy(tableRelations, allRelations)
-					newTable = s.createTable(archetype, tableRelations)
+					newTable = s.createTableUnchecked(archetype, tableRelations)
 					// Get the old table again, as pointers may have changed.
 					table = &s.tables[table.id]
 				}
